@@ -20,7 +20,7 @@ RULE = ("generated definitions x hashed outcomes driven to a completed status (t
         "unchanged, status resuming after acceptance, every later offer is a requested task, a descendant of one, or "
         "work still due when the workflow stopped, nothing else that had completed is repeated, no quiescent "
         "non-terminal state; convergence (one rerun round, failures injected as first-attempt action/item failures): "
-        "final status and every non-racy output variable equal those of the clean twin; non-trivial = accepted rerun "
+        "final status and every non-racy output variable equal those of the clean twin; healthy workflows failed by the provider itself, rendered and rerun by default (compared with the same run without the interruption); non-trivial = accepted rerun "
         "that re-executed at least one task; distinct = (definition, history, request set) digest")
 ASSUMPTIONS = ASSUME_SIM + ["descendants are taken from the definition graph (coarse but independent of the engine)",
                             "if the clean twin itself ends failed only the status is compared"]
@@ -200,6 +200,78 @@ def reruns(job):
     return out
 
 
+def provider_failed(job):
+    """the provider itself fails a healthy workflow (status request) while work is still due, renders the output, and later
+    asks for a default rerun: nothing has to be re-executed, what was due is started, and the workflow ends with the status
+    and output of the same run without the interruption"""
+    out = dict(evaluations=0, nontrivial=set(), violations=[], samples=[], counters={}, sets={})
+    C = out["counters"]
+    only = job.get("only")
+    for seed in ([only[0]] if only else range(job["lo"], job["hi"])):
+        m, inputs = workloads.gen_case(job, seed)
+        wf = m.render()
+        if not workloads.inspect_ok(wf):
+            C["definitions_rejected_by_inspection"] = C.get("definitions_rejected_by_inspection", 0) + 1
+            continue
+        case = dict(wf=wf, inputs=inputs, oseed=h64(job.get("gseed", 0), seed, "o") % 100000, p_fail=0.0)
+        pol = explore.Policy(pseed=h64(job.get("gseed", 0), seed, "p"), lazy_pct=0)
+        clean = explore.make_run(case, [workloads.ledger.Ledger()], model=m, label="uninterrupted")
+        explore.run_free(clean, pol)
+        clean.finish()
+        ndone = len([op for op in clean.script if op[0] == "done"])
+        if clean.status() != "succeeded" or ndone < 2:
+            C["uninterrupted_run_not_succeeded"] = C.get("uninterrupted_run_not_succeeded", 0) + 1
+            continue
+        cl = workloads.mon(clean, "ledger")
+        racy = getattr(cl, "racy_out", None) or set()
+        for cut in sorted(set([1, ndone // 2, ndone - 1])):
+            if only and len(only) > 1 and cut != only[1]:
+                continue
+            if cut < 1:
+                continue
+            run = explore.make_run(case, workloads.monitors(job.get("flags")), model=m, label="provider-failed at %d" % cut)
+            run.request("running")
+            k = 0
+            while k < cut:
+                run.poll()
+                if not run.inflight:
+                    break
+                run.complete(pol.pick(run))
+                k += 1
+            run.poll()
+            if run.status() != "running":
+                continue
+            ev = run.request("failed")
+            if ev["exc"] is not None:
+                C["fail_request_refused"] = C.get("fail_request_refused", 0) + 1
+                continue
+            while run.inflight:
+                run.complete(pol.pick(run))
+            run.render()
+            evr = run.rerun(None)
+            C["default_reruns_after_provider_failure"] = C.get("default_reruns_after_provider_failure", 0) + 1
+            if evr["exc"] is None:
+                explore.run_free(run, pol, start=False)
+                run.finish()
+                oa, ob = run.c.get_workflow_output() or {}, clean.c.get_workflow_output() or {}
+                if run.status() == "succeeded":
+                    C["outputs_compared_with_uninterrupted_run"] = C.get("outputs_compared_with_uninterrupted_run", 0) + 1
+                    for name, spec, lang in m.output:
+                        if spec[0] == "ref" and spec[1] not in racy and oa.get(name) != ob.get(name):
+                            run.viol("C17", "rerun_output_differs_from_clean_run", "output %s = %r after the provider failed the workflow, "
+                                     "rendered, and asked for a default rerun; %r in the same run without the interruption"
+                                     % (name, oa.get(name), ob.get(name)), subject=name)
+                            break
+                elif not run.tags and run.status() not in ("succeeded", "resuming", "running") and not run.inflight:
+                    run.viol("C17", "rerun_status_differs_from_clean_run", "the workflow the provider failed and reran ended %s, the same "
+                             "run without the interruption succeeded" % run.status(), subject=run.status())
+            else:
+                run.finish()
+            out["evaluations"] += 1
+            workloads.collect(out, dict(job, relabel=RELABEL), run, m, (seed, cut), nontrivial)
+    return out
+
+
 def jobs(tier, seed):
     P = dict(p_intjoin=0.2, p_items=0.25, p_retry=0.1, p_fail_cmd=0.1, p_join=0.6, nmax=6)
     js = batches("reruns", scale(tier, 128, 5000), scale(tier, 8, 100), gen="mix", p_loop=0.2, P=P, gseed=seed, p_fail=0.25, name="reruns")
@@ -210,6 +282,9 @@ def jobs(tier, seed):
     # the provider cancels the actions still running once the workflow has failed; reruns name failed and canceled tasks
     js += batches("reruns", scale(tier, 64, 2500), scale(tier, 8, 100), gen="dag", gseed=seed + 2, p_fail=0.3, late_canceled=True,
                   P=dict(P, p_intjoin=0.0, p_fail_cmd=0.0, p_items=0.1, p_retry=0.0, nmax=5), name="reruns-after-provider-cancel")
+    # a healthy workflow failed by the provider itself, rendered, and rerun by default (nothing to re-execute, work still due)
+    js += batches("provider_failed", scale(tier, 80, 2000), scale(tier, 8, 100), gen="dag", gseed=seed + 3,
+                  P=dict(P, p_intjoin=0.0, p_fail_cmd=0.0, p_items=0.15, p_retry=0.0, nmax=5, p_pub=0.8), name="failed-by-the-provider")
     return js
 
 
